@@ -695,6 +695,10 @@ ASMJIT_FAVOR_SPEED Error Assembler::_emit(InstId inst_id, const Operand_& o0, co
     // -----------------
 
     case InstDB::kEncodingX86Op:
+      // Instructions of this class only have implicit operands. An explicit immediate belongs to a form that is not
+      // implemented by this encoder (rdmsr/wrmsrns r64, imm32) - refuse it instead of emitting the implicit form.
+      if (ASMJIT_UNLIKELY(o0.is_imm() || o1.is_imm() || o2.is_imm()))
+        goto InvalidInstruction;
       goto EmitX86Op;
 
     case InstDB::kEncodingX86Op_Mod11RM:
